@@ -1096,5 +1096,9 @@ def rule_round12(repo, rep):
         raise AnalysisError("optimise_quantize: rounding of the folded value not found")
     for c in calls:
         a = c.args[0]
+        if isinstance(a, ast.Name):
+            # a local that holds the quotient counts as the quotient
+            ds = [st.value for st in ast.walk(oq) if isinstance(st, ast.Assign) and len(st.targets) == 1 and str(norm(st.targets[0])) == a.id]
+            a = ds[-1] if len(ds) == 1 else a
         ok = isinstance(a, ast.BinOp) and isinstance(a.op, ast.Div) and str(norm(a.right)).endswith(".scale_f32")
         rep.check(ok, "C09-z", osite, f"`{str(norm(c))[:70]}` divides the value by the output scale", "the value is not divided by the scale itself (a precomputed reciprocal lands on the other side of .5 for constants on a rounding boundary: the folded constant is off by one code)")
